@@ -394,7 +394,7 @@ func (rr *routingRun) knownTSR(p world.Probe, matchPath string, ans lookupAnswer
 }
 
 // the last four are clean in their escaped form while their decoding is not (an escaped slash next to a real one, escaped dot segments)
-var reservedValues = []string{"https:evil.com", "a%3Fb", "a%23b", "a%25b", "a%20b", "%C3%A9", "a:b", "x%2Fy", "a%2F", "%2Fb", "%2E%2E", "%2E"}
+var reservedValues = []string{"https:evil.com", "a%3Fb", "a%23b", "a%25b", "a%20b", "%C3%A9", "a:b", ":42", ":", "x%2Fy", "a%2F", "%2Fb", "%2E%2E", "%2E"}
 
 func runC08(src sim.Source, o Opts) *Result {
 	res := newResult()
